@@ -423,7 +423,7 @@ pub enum Action<'a> {
     Send { data: &'a [u8], port: u8, confirmed: bool },
 }
 
-pub type NbDev<const PW: u8, const G: i8, const N: usize = 256> = nb_device::Device<NbRadio<PW, G>, SRng, N, 4>;
+pub type NbDev<const PW: u8, const G: i8, const N: usize = 256, const D: usize = 4> = nb_device::Device<NbRadio<PW, G>, SRng, N, D>;
 pub type AsDev<const PW: u8, const G: i8> = async_device::Device<AsRadio<PW, G>, AsTimer, SRng, 256, 4>;
 
 pub enum AnyDev<const PW: u8, const G: i8> {
@@ -794,7 +794,7 @@ fn render_nb_err<const PW: u8, const G: i8>(e: nb_device::Error<NbRadio<PW, G>>)
 
 /// Drives the nb state machine through one transaction the way an application's event loop
 /// would: send -> (TxDone) -> timeout -> RX1 window {frames..., timeout} -> timeout -> RX2 ...
-pub fn nb_transact<const PW: u8, const G: i8, const N: usize>(d: &mut NbDev<PW, G, N>, jm: JoinMode, action: Action<'_>, script: &Script, notes: &mut Vec<String>) -> Resp {
+pub fn nb_transact<const PW: u8, const G: i8, const N: usize, const D: usize>(d: &mut NbDev<PW, G, N, D>, jm: JoinMode, action: Action<'_>, script: &Script, notes: &mut Vec<String>) -> Resp {
     use nb_device::{Event, Response};
     let first = match action {
         Action::Join => d.join(jm),
@@ -975,6 +975,12 @@ impl<const PW: u8, const G: i8> Dev<PW, G> {
 pub fn short_loc(loc: &str) -> String {
     let f = loc.rsplit_once(':').map(|x| x.0).unwrap_or(loc);
     // (wherever a copy of the repository lives)
+    // (a dependency's source: crate directory onwards)
+    if let Some(i) = f.find("/registry/src/") {
+        if let Some(j) = f[i + 14..].find('/') {
+            return f[i + 14 + j + 1..].to_string();
+        }
+    }
     for c in ["lorawan-encoding/", "lorawan-device/", "lorawan-macros/", "lora-modulation/", "lora-phy/"] {
         if let Some(i) = f.find(c) {
             return f[i..].to_string();
@@ -1041,20 +1047,21 @@ impl<const PW: u8, const G: i8> Link<PW, G> {
 }
 
 
-/// A state-machine device built with a radio buffer of `N` octets (the const generic the other
-/// monitors leave at 256): personalised, on a scripted radio like every other `Dev`.
-pub struct SmallNb<const N: usize> {
-    pub dev: NbDev<20, 0, N>,
+/// A state-machine device built with a radio buffer of `N` octets and a downlink queue of `D` entries
+/// (the const generics the other monitors leave at 256 and 4): personalised, on a scripted radio like
+/// every other `Dev`.
+pub struct SmallNb<const N: usize, const D: usize = 4> {
+    pub dev: NbDev<20, 0, N, D>,
     pub log: Log,
     pub net: Net,
     pub notes: Vec<String>,
 }
 
-impl<const N: usize> SmallNb<N> {
+impl<const N: usize, const D: usize> SmallNb<N, D> {
     pub fn new(reg: Reg, rng: &mut Prng) -> Self {
         let log: Log = Rc::new(RefCell::new(LogInner { tx_done_ms: 0, snr: 5, rng_next: rng.next_u32(), lead_ms: LEAD_MS, tx_async: rng.bool(), ..Default::default() }));
         let srng = SRng { log: log.clone(), prng: Some(Prng::new(rng.next_u64())) };
-        let mut dev: NbDev<20, 0, N> = nb_device::Device::new(region_config(reg, None), NbRadio { log: log.clone(), rx: vec![] }, srng);
+        let mut dev: NbDev<20, 0, N, D> = nb_device::Device::new(region_config(reg, None), NbRadio { log: log.clone(), rx: vec![] }, srng);
         let net = Net { nwk: rng.arr(), app: rng.arr(), addr: rng.next_u32() };
         let _ = dev.join(JoinMode::ABP { nwkskey: NwkSKey::from(net.nwk), appskey: AppSKey::from(net.app), devaddr: DevAddr::from_value(net.addr) });
         SmallNb { dev, log, net, notes: vec![] }
@@ -1078,5 +1085,13 @@ impl<const N: usize> SmallNb<N> {
     }
     pub fn evs_since(&self, start: usize) -> Vec<Ev> {
         self.log.borrow().ev[start..].to_vec()
+    }
+    /// Empties the downlink queue the way an application does.
+    pub fn take_downlinks(&mut self) -> usize {
+        let mut n = 0;
+        while self.dev.take_downlink().is_some() {
+            n += 1;
+        }
+        n
     }
 }
